@@ -29,11 +29,11 @@ type vfs struct {
 	nextIno int
 	nOps    int
 	// plan
-	stopAt    int // stop the process at the entry of this operation (1-based); 0 = never
+	stopAt    int  // stop the process at the entry of this operation (1-based); 0 = never
 	stopExit  bool // … at its exit instead
-	stopBytes int // for a write: bytes that still make it (-1 = whole op)
-	failAt    int // inject an error at this operation
-	failBytes int // for a write: bytes accepted before the error
+	stopBytes int  // for a write: bytes that still make it (-1 = whole op)
+	failAt    int  // inject an error at this operation
+	failBytes int  // for a write: bytes accepted before the error
 	stopped   bool
 	failed    bool
 	gate      func(op string) // scheduler hook (concurrent scenarios)
